@@ -652,6 +652,25 @@ func Names(g *vh.Gen) []string {
 	pool = append(pool, special...)
 	pool = append(pool, "alice", "bob")
 	g.Shuffle(len(pool), func(i, j int) { pool[i], pool[j] = pool[j], pool[i] })
+	if g.Chance(0.2) {
+		// spellings that differ only in letter case are DIFFERENT mailboxes (names are byte strings;
+		// mixed-case names come from direct store use and before.message_stored hooks): every
+		// listing and every event must carry the spelling the message was stored under
+		cv := []string{"casebox", "CaseBox", "CASEBOX"}
+		g.Shuffle(len(cv), func(i, j int) { cv[i], cv[j] = cv[j], cv[i] })
+		k := 2 + g.Intn(2)
+		if n < k {
+			n = k
+		}
+		out := append([]string{}, cv[:k]...)
+		for _, p := range pool {
+			if len(out) >= n {
+				break
+			}
+			out = append(out, p)
+		}
+		return out
+	}
 	if g.Chance(0.3) {
 		// make sure colliding names meet
 		c := Colliding(3)
